@@ -976,6 +976,108 @@ class Helper(And):
 def f():
     return [sorted(REG), REG["nand"].lits(3), REG["and"].lits(3), REG["nand"] is REG["nnd"], REG["nand"].alias, type(REG["and"]).__name__]
 """,
+    "operators-of-value-objects": """
+from typing import NamedTuple
+from dataclasses import dataclass
+class Lit(NamedTuple):
+    net: str
+    positive: bool = True
+    def __neg__(self):
+        return Lit(self.net, not self.positive)
+    def __invert__(self):
+        return -self
+@dataclass(frozen=True)
+class Clause:
+    lits: tuple
+    def __or__(self, other):
+        return Clause(self.lits + (other.lits if isinstance(other, Clause) else (other,)))
+    def __ror__(self, other):
+        return Clause((other,) + self.lits)
+    def __len__(self):
+        return len(self.lits)
+    def __ge__(self, other):
+        return len(self) >= len(other)
+def f():
+    a, b = Lit("a"), Lit("b", False)
+    c = Clause((a,)) | -b | Clause((~a,))
+    d = a | Clause((b,))
+    out = [tuple(-a), (-b).positive, len(c), [l.net for l in d.lits], c >= d, a + b, a * 2 == ("a", True, "a", True), a <= b]
+    try:
+        -Clause(())
+    except TypeError:
+        out.append("no unary minus")
+    try:
+        Clause(()) + 1
+    except TypeError:
+        out.append("no plus")
+    return out
+""",
+    "methods-registered-by-a-mark-on-the-function": """
+def encodes(*kinds):
+    def register(method):
+        method.kinds = kinds
+        return method
+    return register
+class Encoder:
+    "doc"
+    limit = 3
+    def __init__(self):
+        self.log = []
+    @encodes("and", "nand")
+    def _conj(self, n):
+        self.log.append(("conj", n))
+        return len(self.log)
+    @encodes("buf")
+    def _wire(self, n):
+        self.log.append(("wire", n))
+        return -1
+    @staticmethod
+    def helper(x):
+        return x
+    def plain(self):
+        return 0
+    @classmethod
+    def encoder_of(cls, kind):
+        return cls._TABLE.get(kind)
+Encoder._TABLE = {kind: method for method in vars(Encoder).values() for kind in getattr(method, "kinds", ())}
+def f():
+    e = Encoder()
+    out = [sorted(Encoder._TABLE), Encoder.encoder_of("nand")(e, "g"), Encoder.encoder_of("buf")(e, "w"), Encoder.encoder_of("xor"), e.log, Encoder._conj.kinds, hasattr(Encoder.plain, "kinds"),
+           getattr(Encoder.plain, "kinds", None), Encoder._wire.__name__]
+    try:
+        Encoder.plain.kinds
+    except AttributeError:
+        out.append("no mark")
+    return out
+""",
+    "signature-of-the-wrapped-function": """
+import inspect
+from functools import wraps
+def first_is_positive(fn):
+    sig = inspect.signature(fn)
+    first = next(iter(sig.parameters))
+    @wraps(fn)
+    def wrapper(*args, **kwargs):
+        bound = sig.bind(*args, **kwargs)
+        if bound.arguments[first] <= 0:
+            raise ValueError(first)
+        bound.apply_defaults()
+        return fn(*args, **kwargs), sorted(bound.arguments), fn.__name__
+    return wrapper
+@first_is_positive
+def scale(n, factor=2, *, offset=0):
+    "doc"
+    return n * factor + offset
+def f():
+    out = [scale(3), scale(factor=5, n=1), scale(2, offset=1), scale.__name__, scale.__doc__, list(inspect.signature(scale).parameters)]
+    for bad in (lambda: scale(0), lambda: scale(), lambda: scale(1, 2, 3), lambda: scale(1, nope=1)):
+        try:
+            bad()
+            out.append("returned")
+        except (ValueError, TypeError) as e:
+            out.append(type(e).__name__)
+    return out
+""",
 }
 
 
